@@ -122,7 +122,7 @@ DIM   == "DimensionException"
 EMPTY == "EmptyVectorException"
 
 \* operations that may modify their first / second / third vector argument
-MutX == {"Median", "Fill", "AndEq", "AddEqS", "SubEqS", "MulEqS", "DivEqS", "AddEqE", "SubEqE", "MulEqE", "DivEqE", "Same", "ContainsAll",
+MutX == {"AddEqSQ", "SubEqSQ", "MulEqSQ", "DivEqSQ", "Median", "Fill", "AndEq", "AddEqS", "SubEqS", "MulEqS", "DivEqS", "AddEqE", "SubEqE", "MulEqE", "DivEqE", "Same", "ContainsAll",
          "AddEq", "SubEq", "MulEq", "DivEq", "Append", "Prepend", "Extend", "Diff"}
 MutY == {"Same", "ContainsAll", "Diff"}
 MutZ == {"Diff"}
@@ -198,6 +198,21 @@ Value(t, op, x, y, z, k, o, c, r, X, Y, Z) ==
     [] op = "SubEqS"   -> o = "ok" /\ X = Map1(x, LAMBDA e : e - k[1])
     [] op = "MulEqS"   -> o = "ok" /\ X = Map1(x, LAMBDA e : e * k[1])
     [] op = "DivEqS"   -> o = "ok" /\ X = Map1(x, LAMBDA e : TruncDiv(e, k[1]))
+    \* mixed element / scalar types: an int vector with a real scalar c = k[1]/4 (a dyadic fraction), a double vector with an
+    \* int scalar (k[1] a multiple of 4).  The result is a std::vector<T>; each element is the value of v[i] op c formed in
+    \* the common arithmetic type and converted to T once (conversion to int truncates towards zero).  The additive binary
+    \* forms are written v[i] + T(c) in the header: both readings are accepted where they differ (int elements, negative
+    \* fractional sums); the compound forms x op= c are C++'s own x = T(x op c).
+    [] op \in {"AddSQ", "SAddQ"} -> o = "ok" /\ (r = Map1(x, LAMBDA e : TruncDiv(4 * e + k[1], 4)) \/ r = Map1(x, LAMBDA e : e + TruncDiv(k[1], 4)))
+    [] op = "SubSQ"    -> o = "ok" /\ (r = Map1(x, LAMBDA e : TruncDiv(4 * e - k[1], 4)) \/ r = Map1(x, LAMBDA e : e - TruncDiv(k[1], 4)))
+    [] op = "SSubQ"    -> o = "ok" /\ (r = Map1(x, LAMBDA e : TruncDiv(k[1] - 4 * e, 4)) \/ r = Map1(x, LAMBDA e : TruncDiv(k[1], 4) - e))
+    [] op \in {"MulSQ", "SMulQ"} -> o = "ok" /\ r = Map1(x, LAMBDA e : TruncDiv(e * k[1], 4))
+    [] op = "DivSQ"    -> o = "ok" /\ r = Map1(x, LAMBDA e : TruncDiv(4 * e, k[1]))
+    [] op = "SDivQ"    -> o = "ok" /\ r = Map1(x, LAMBDA e : TruncDiv(k[1], 4 * e))
+    [] op = "AddEqSQ"  -> o = "ok" /\ X = Map1(x, LAMBDA e : TruncDiv(4 * e + k[1], 4))
+    [] op = "SubEqSQ"  -> o = "ok" /\ X = Map1(x, LAMBDA e : TruncDiv(4 * e - k[1], 4))
+    [] op = "MulEqSQ"  -> o = "ok" /\ X = Map1(x, LAMBDA e : TruncDiv(e * k[1], 4))
+    [] op = "DivEqSQ"  -> o = "ok" /\ X = Map1(x, LAMBDA e : TruncDiv(4 * e, k[1]))
     \* v op= v[i]: the scalar is an element of the target itself (k[1] = i, 0-based); every element is
     \* combined with the value v[i] had when the call was made
     [] op = "AddEqE"   -> o = "ok" /\ X = Map1(x, LAMBDA e : e + x[k[1] + 1])
